@@ -32,6 +32,11 @@ func handleINT(ocode ocode.Ocode) []byte {
 		return nil
 	}
 
+	// INT 3 は 1 バイトのブレークポイント命令 (CC) として出力する (pass1 のサイズ見積もりと一致させる)
+	if num == 3 {
+		return []byte{0xCC}
+	}
+
 	// 割り込み番号を追加
 	binary = append(binary, byte(num))
 
